@@ -186,3 +186,29 @@ Definition holds_stft (c : scase) : bool :=
       end
   | PSamples out => match s_obs c with OSamples o None => qlist_eqb o out && stft_gc_ok c | _ => false end
   end.
+
+(* ------------------------------------------------------------------ histories sharing one window object *)
+(* Several overlap_add.list calls made with the SAME caller-side window object (a list, a list subclass, or a
+   memoised callable that returns the same list every time).  overlap_add.list copies the window (list(wnd))
+   before normalising in place, so every call sees the caller's original values and the caller's list is
+   unchanged afterwards; the text's g*w is about the window the user gave. *)
+Record hcall := HC { h_size : nat; h_hop : nat; h_norm : bool; h_gc : Qc; h_blks : list (list Qc);
+                     h_out : list Qc; h_exn : option string;
+                     h_wafter : list Qc }.            (* the caller's list, read after the call *)
+Record hcase := HS { hs_wnd : list Qc; hs_callable : bool; hs_calls : list hcall }.
+Definition hs_arg (c : hcase) : wndarg :=
+  if hs_callable c then WCall (fun _ => RList (hs_wnd c)) else WIter (hs_wnd c).
+
+Definition corr_hist (c : hcase) : bool :=
+  forallb (fun k =>
+    let '(out, e) := ola_model (Some (h_size k)) (Some (h_hop k)) (hs_arg c) (h_norm k) (h_gc k) (h_blks k) None in
+    qlist_eqb (h_out k) out && oexn_eqb (h_exn k) e && qlist_eqb (h_wafter k) (hs_wnd c)) (hs_calls c).
+
+Definition holds_hist (c : hcase) : bool :=
+  forallb (fun k =>
+    qlist_eqb (h_wafter k) (hs_wnd c) &&
+    match ola_promise (Some (h_size k)) (Some (h_hop k)) (hs_arg c) (h_norm k) (h_gc k) (h_blks k) with
+    | None => true
+    | Some out => qlist_eqb (h_out k) out && oexn_eqb (h_exn k) None
+                  && gc_ok (Some (h_size k)) (Some (h_hop k)) (h_blks k) (h_gc k)
+    end) (hs_calls c).
